@@ -161,6 +161,7 @@ struct Args {
   double t0 = 0;
   int workers = 16;
   std::string verif_dir = "/verif";
+  std::string out_dir;  // where evidence/ and replays/ are written (VERIF_OUT_DIR, default verif_dir)
   bool thorough() const { return tier == "thorough"; }
   bool replaying() const { return !replay_id.empty(); }
   bool past_deadline() const { return now() - t0 > deadline_s; }
@@ -198,6 +199,8 @@ inline Args parse_args(const char* prop, int argc, char** argv, double quick_dea
   a.t0 = now();
   const char* vd = getenv("VERIF_DIR");
   if (vd) a.verif_dir = vd;
+  const char* od = getenv("VERIF_OUT_DIR");
+  a.out_dir = (od && *od) ? od : a.verif_dir;
   const char* sd = getenv("VERIF_SEED");
   if (sd && *sd) a.seed = strtoull(sd, 0, 10);
   const char* wk = getenv("VERIF_WORKERS");
@@ -439,7 +442,7 @@ struct Ctx {
     std::set<std::string> seen;
     uint64_t real = 0, knownhits = 0;
     int printed = 0;
-    mkdir((args.verif_dir + "/replays").c_str(), 0755);
+    mkdir((args.out_dir + "/replays").c_str(), 0755);
     for (auto& r : recs) {
       if (!seen.insert(r.id).second) continue;
       const Known* kf = 0;
@@ -452,7 +455,7 @@ struct Ctx {
       real++;
       if (printed < 12) {
         printed++;
-        std::string path = sfmt("%s/replays/%s-%016llx.json", args.verif_dir.c_str(), args.prop.c_str(),
+        std::string path = sfmt("%s/replays/%s-%016llx.json", args.out_dir.c_str(), args.prop.c_str(),
                                 (unsigned long long)fnv(r.id, strlen(r.id)));
         Json j = Json::obj();
         j.set("property", args.prop).set("case_id", std::string(r.id)).set("tier", args.tier)
@@ -497,8 +500,8 @@ struct Ctx {
       for (auto& s : assumptions) as.push(s);
       ev.set("assumptions", as);
       ev.set("wall_s", wall).set("violations", (long long)real).set("known_findings_hit", (long long)knownhits);
-      mkdir((args.verif_dir + "/evidence").c_str(), 0755);
-      std::string path = args.verif_dir + "/evidence/" + args.prop + ".json";
+      mkdir((args.out_dir + "/evidence").c_str(), 0755);
+      std::string path = args.out_dir + "/evidence/" + args.prop + ".json";
       std::string tmp = path + ".tmp";
       FILE* f = fopen(tmp.c_str(), "w");
       if (!f) machinery_error("cannot write %s", tmp.c_str());
